@@ -33,7 +33,8 @@ let parse_op (tok : string) : op =
   | ["op"; h; s; ok] -> OOpen (nat_ h, src_of s, bool_ ok)
   | ["sv"; h; f] -> OSrvIo (nat_ h, nat_ f)
   | ["ac"; s; c; ok] -> OAccept (nat_ s, nat_ c, bool_ ok)
-  | ["rf"; h; n] -> ORecvFds (nat_ h, nat_ n)
+  | ["rf"; h; n] -> ORecvFds (nat_ h, nat_ n, nat_ n)
+  | ["rf"; h; n; k] -> ORecvFds (nat_ h, nat_ n, nat_ k)
   | ["cl"; h] -> OClose (nat_ h)
   | ["ru"] -> ORun
   | ["fe"; h] -> OFsEventStart (nat_ h)
